@@ -150,6 +150,33 @@ def takeover_offsetfetch_errors(rng, base_id):
     return out
 
 
+def stop_beside_pending_poll(rng, base_id):
+    """stop() called from another task while the application's getmany() is pending; records arrive during the
+    shutdown (slow OffsetCommit round trips keep an auto-commit in flight around the stop): whatever the final
+    commit covers has been handed to the application"""
+    out = []
+    k = 0
+    for t_stop in (1.0, 1.03, 1.07, 1.15):
+        for dt in (0.0, 0.005, 0.02, 0.05, 0.1, 0.15):
+            sc = {"id": base_id + k, "seed": rng.randrange(1 << 30), "brokers": 1, "topics": {"t0": 1},
+                  "preload": {"t0": {"0": 5}},
+                  "consumers": [
+                      {"name": "c0", "group": "g", "topics": ["t0"], "assignors": ["range"], "auto_commit": True,
+                       "auto_commit_interval_ms": 100, "cb_delay": 0, "auto_offset_reset": "earliest",
+                       "program": [["sleep", 0], ["start"], ["consume_stop", t_stop, 0.5]]},
+                      {"name": "c1", "group": "g", "topics": ["t0"], "assignors": ["range"], "auto_commit": True,
+                       "auto_commit_interval_ms": 100, "cb_delay": 0, "auto_offset_reset": "latest",
+                       "program": [["sleep", t_stop + 2.0], ["start"], ["consume", 2.0, 0.1, None, 0], ["stop"]]}],
+                  "cluster_events": [{"at": t_stop + dt, "op": "append", "topic": "t0", "p": 0, "n": 3},
+                                     {"at": t_stop + 3.0, "op": "append", "topic": "t0", "p": 0, "n": 2}],
+                  "api_latency": {"OffsetCommit": 0.12},
+                  "faults": {"apis": [], "plan": {}}, "coordinator": 0, "max_vtime": 600.0,
+                  "family": "stop-beside-pending-poll"}
+            out.append(sc)
+            k += 1
+    return out
+
+
 def run(ck: Check):
     ck.trusted += [
         "Coq 8.16.1 kernel; vm_compute for trace replay and Examples",
@@ -175,6 +202,7 @@ def run(ck: Check):
                     c["bad_rids"] = rng.sample(range(total), min(total, rng.choice([1, 2, 3])))
     scs += takeover_late_partition(rng, n)
     scs += takeover_offsetfetch_errors(random.Random(ck.seed * 7121 + 424), 900000)
+    scs += stop_beside_pending_poll(random.Random(ck.seed * 7121 + 434), 950000)
     # the application commits by hand (commit() without arguments) after every batch, with and without the auto-commit
     # timer running beside it
     rng_mc = random.Random(ck.seed * 7121 + 414)
